@@ -117,7 +117,7 @@ def main():
         mp = os.path.join(find(n), 'meta.json')
         if os.path.exists(mp):
             meta = json.load(open(mp))
-        checks = a.check.split(',') if a.check else [meta.get('breaks_property') or n[:3]]
+        checks = a.check.split(',') if a.check else (meta.get('run_checks') or [meta.get('breaks_property') or n[:3]])
         for c in checks:
             if os.path.exists(os.path.join(HERE, 'props', c.lower() + '.py')):
                 jobs.append((n, c))
